@@ -730,8 +730,12 @@ def _differential(interp, contract, inst, nm, pb, tol, real_call, ctx):
             if getattr(ctx, "tol_fn", None):
                 tol = ctx.tol_fn(ctx.inst_label, nm.used) or tol
             try:
-                g = from_real(got.value, pb)
-                compare_concrete(g, want.value, tol, "result", mism, pb)
+                if hasattr(want.value, "compare_concrete") and callable(got.value) and not isinstance(got.value, type):
+                    # a relational spec result that inspects the real object itself (e.g. the function pb.fft.<name>)
+                    want.value.compare_concrete(got.value, "result", mism, pb)
+                else:
+                    g = from_real(got.value, pb)
+                    compare_concrete(g, want.value, tol, "result", mism, pb)
                 if contract.theorems is not None:
                     mism.extend(concrete_theorems(interp, contract, got.value, args, kwargs, pb))
             except Unsupported as e:
